@@ -1,5 +1,12 @@
 (* C07 -- Outputs stay re-preservable: tags fully expanded, USER tags paired and unique.
-   PARTIAL: the statement "for EVERY valid model the shipped generators' output is represervable" would need the complete
+   FOR ALL MODELS, for the shipped template files that lie in the block grammar of C16 after the first filtering
+   (Test.TEMPLATEStateMachine.cpp, TEMPLATEReceiver.h, TEMPLATETransmitter.h; decided by computation: shipped16): the generated
+   file is the reference expansion and NO generator tag is left in it (C07_tags_consumed_shipped, end of this file).  The
+   USER-tag half (pairs adjacent, names unique = wf_fresh_file) is NOT proved for all models: it needs CleanUpLine on lines
+   with symbolic names (kof distributes over literal / name pieces; "{{" cannot arise) and the NoDup combinatorics of the
+   instantiated names under a names_ok predicate; see the report.  The other shipped files use signature / member / table /
+   nested-transition tags that Model/EngineSM.v does not model.
+   PARTIAL (the rest): the statement "for EVERY valid model the shipped generators' output is represervable" would need the complete
    template engine as a Coq function (name/case/counter tags are modelled in Model/EngineSM.v; signature, member, documentation
    and UML tags are not).  What is proved: (1) finite, source-derived obligations over every shipped template, re-checked against
    /repo on every run; (2) the algebra that turns them into uniqueness of expanded names; (3) what well-formedness buys.
@@ -7,7 +14,9 @@
    the C01-C07 runs (any false is a violation or a recorded finding). *)
 From Coq Require Import String Ascii List Bool.
 From KV Require Import Lib.Str Lib.ODict Model.PreserveCore Model.Preserve Model.TagShape
-                       Gen.Tags Gen.Templates Gen.Vocab Proofs.PreserveStr Proofs.TagShapeProofs.
+                       Gen.Tags Gen.Templates Gen.Vocab Proofs.PreserveStr Proofs.TagShapeProofs
+                       Model.Engine Model.EngineSM Model.EngineDomain Model.EngineDomain16 Model.Parse16 Spec.RefExpand Spec.RefExpand16
+                       Proofs.Shipped16.
 Import ListNotations.
 Open Scope string_scope.
 
@@ -64,3 +73,37 @@ Example C07_nonvacuous :
   length (concat (map (fun set => snd set) all_templates)) = 29.
 Proof. repeat split; vm_compute; reflexivity. Qed.
 Print Assumptions C07_nonvacuous.
+
+(* ---------------------------------------------------------------- for all models: shipped files inside the block grammar *)
+(* [lines] : a shipped template file (Gen/Templates.v); shipped16 dict0 lines = Some (l0, t) : under the first-filter dictionary
+   dict0 (names X / NS / a / g / b) the file's lines become l0, which read back as the template t of in_grammar16 (all of this
+   is computed).  Then for EVERY state-machine model m whose element names are admitted for t (wf_elements16: the names
+   carry no '<' '>', no expanded line is blank or spells an unmodelled tag) and EVERY assignment of user tags: the pipeline
+   of smgen.Generate writes exactly the reference expansion, and no line of it contains a generator tag. *)
+Theorem C07_tags_consumed_shipped : forall lines l0 t m (a : usertags),
+  shipped16 dict0 lines = Some (l0, t) ->
+  wf_elements16 t (elements_of_model m) = true ->
+  generate_file m dict0 a lines = Some (ref16 (elements_of_model m) t)
+  /\ forallb no_generator_tag (flat_map (ref_item16 (elements_of_model m)) t) = true.
+Proof. intros lines l0 t m a Hs Hw. exact (shipped_output lines l0 t Hs m a Hw). Qed.
+Print Assumptions C07_tags_consumed_shipped.
+
+Definition cd_rows : list EngineSM.row :=
+  [["StateStop"; "EventOpen"; "StateOpen"; "OnOpenDrive"; "None"]; ["StateStop"; "EventPlay"; "StatePlay"; "OnPlayTrack"; "GuardCDInside"];
+   ["StateOpen"; "EventOpen"; "StateStop"; "OnCloseDrive"; "None"]; ["StatePlay"; "EventPlay"; "StatePause"; "OnPause"; "None"];
+   ["StatePlay"; "EventEndOfTrack"; "None"; "OnPlayNextTrack"; "GuardCDHasMoreTracks"];
+   ["StatePlay"; "EventEndOfTrack"; "StateStop"; "OnStop"; "GuardCDHasNoMoreTracks"]].
+
+Definition admitted (lines : list string) (tt : list EngineSM.row) (structs protos msgs : list string) : bool :=
+  match shipped16 dict0 lines, tt_model tt structs protos msgs with
+  | Some (_, t), Some m => wf_elements16 t (elements_of_model m)
+  | _, _ => false
+  end.
+
+(* the three files are in the grammar, and the CD player table (resp. an interface with two messages) is admitted *)
+Example C07_tags_consumed_shipped_nonvacuous :
+  admitted (file_of "Test.TEMPLATEStateMachine.cpp" tmpl_cpp) cd_rows [] ["MessageHeader"] [] = true
+  /\ admitted (file_of "TEMPLATEReceiver.h" tmpl_proto) [] [] ["MessageHeader"] ["MsgPing"; "MsgPong"] = true
+  /\ admitted (file_of "TEMPLATETransmitter.h" tmpl_proto) [] [] ["MessageHeader"] ["MsgPing"; "MsgPong"] = true.
+Proof. split; [|split]; vm_compute; reflexivity. Qed.
+Print Assumptions C07_tags_consumed_shipped_nonvacuous.
